@@ -1975,7 +1975,7 @@ where
                 N
             };
 
-            let (right, left) = self.slices_uninit_mut();
+            let (right, _) = self.slices_uninit_mut();
 
             let write_len = core::cmp::min(right.len(), other.len());
             #[cfg(feature = "unstable")]
@@ -1983,13 +1983,22 @@ where
             #[cfg(not(feature = "unstable"))]
             write_uninit_slice_cloned(&mut right[..write_len], &other[..write_len]);
 
+            // The elements written so far are now part of the buffer: if cloning one of the
+            // remaining elements panics, they get dropped with the buffer instead of being leaked
+            self.size += write_len;
+
             let other = &other[write_len..];
-            debug_assert!(left.len() >= other.len());
-            let write_len = other.len();
-            #[cfg(feature = "unstable")]
-            left[..write_len].write_clone_of_slice(other);
-            #[cfg(not(feature = "unstable"))]
-            write_uninit_slice_cloned(&mut left[..write_len], other);
+            if !other.is_empty() {
+                // The free space at the end of the array is used up; the rest of the free space
+                // is at the beginning of the array
+                let (left, _) = self.slices_uninit_mut();
+                debug_assert!(left.len() >= other.len());
+                let write_len = other.len();
+                #[cfg(feature = "unstable")]
+                left[..write_len].write_clone_of_slice(other);
+                #[cfg(not(feature = "unstable"))]
+                write_uninit_slice_cloned(&mut left[..write_len], other);
+            }
 
             self.size = final_size;
         } else {
